@@ -9,6 +9,7 @@ use duke::tree::field::{ConstantValue, Field, FieldAccess, FieldDescriptor, Fiel
 use duke::tree::method::{Method, MethodAccess, MethodDescriptor, MethodName};
 use duke::tree::version::Version;
 use dukebox::storage::{BasicFileAttributes, ClassRepr, JarEntryEnum, ParsedJar, ParsedJarEntry};
+use fvh::c01model::{self as gm, GAnno, GClass, GConst, GElem, GField, GMethod};
 use fvh::rng::Rng;
 use fvh::run::{main_for, Ans, Out, Tier};
 use fvh::sexp::{Sexp, R};
@@ -275,7 +276,49 @@ type PJ = ParsedJar<ClassRepr, Vec<u8>>;
 fn attr_build(n: usize) -> BasicFileAttributes {
 	BasicFileAttributes { mtime: if n == 0 { None } else { Some(n as u32) }, ..BasicFileAttributes::default() }
 }
-fn jar_build(es_: &[EntD]) -> R<PJ> {
+// ---- stored (`v`) class bytes: written by the harness' own assembler (`fvh::c01model::assemble`, no code of /repo) under
+// non-default choices — pool order shuffled, duplicate and unused pool entries, attribute order shuffled, annotation
+// attributes split, wide forms — so that they are NOT a fixed point of duke's read / write: an entry that is passed through
+// verbatim keeps these bytes, one that went through the class reader and writer does not.
+
+fn g_ann(a: &AnnD) -> GAnno {
+	let env = |s: &Side| (gm::js("value"), GElem::Enum(gm::js("Lnet/fabricmc/api/EnvType;"), gm::js(match s { Side::C => "CLIENT", Side::S => "SERVER" })));
+	match a {
+		AnnD::Env(s) => GAnno { ty: gm::js("Lnet/fabricmc/api/Environment;"), pairs: vec![env(s)] },
+		AnnD::Itfs(ms) => GAnno { ty: gm::js("Lnet/fabricmc/api/EnvironmentInterfaces;"), pairs: vec![(gm::js("value"), GElem::Arr(ms.iter().map(|(s, i)|
+			GElem::Anno(GAnno { ty: gm::js("Lnet/fabricmc/api/EnvironmentInterface;"), pairs: vec![env(s), (gm::js("itf"), GElem::Cls(gm::js(&format!("L{i};"))))] })).collect()))] },
+		AnnD::Other(n) => GAnno { ty: gm::js(&format!("Lann/A{n};")), pairs: vec![] },
+	}
+}
+fn g_class(c: &ClsD) -> GClass {
+	GClass {
+		minor: if c.version == 45 { 3 } else { 0 }, major: c.version as u16, access: c.access as u16, name: gm::js(&c.name),
+		super_: c.sup.as_ref().map(|s| gm::js(s)), interfaces: c.itfs.iter().map(|i| gm::js(i)).collect(),
+		fields: c.fields.iter().map(|m| GField { access: m.access as u16, name: gm::js(&m.name), desc: gm::js(&m.desc), deprecated: m.dep, synthetic: m.syn,
+			constant: if m.payload > 0 { Some(GConst::Int(m.payload as i32)) } else { None }, ria: m.anns.iter().map(g_ann).collect(), ..Default::default() }).collect(),
+		methods: c.methods.iter().map(|m| GMethod { access: m.access as u16, name: gm::js(&m.name), desc: gm::js(&m.desc), deprecated: m.dep, synthetic: m.syn,
+			exceptions: if m.payload > 0 { Some(vec![gm::js(&format!("ex/E{}", m.payload))]) } else { None }, ria: m.anns.iter().map(g_ann).collect(), ..Default::default() }).collect(),
+		deprecated: c.dep, synthetic: c.syn,
+		inner_classes: if c.inners.is_empty() { None } else { Some(c.inners.iter().map(|i| (gm::js(&i.name), None, None, i.flags as u16)).collect()) },
+		source_file: if c.payload > 0 { Some(gm::js(&format!("S{}", c.payload))) } else { None },
+		rva: c.vis.iter().map(g_ann).collect(), ria: c.invis.iter().map(g_ann).collect(),
+		..Default::default()
+	}
+}
+const STORED_CHOICES: gm::Choices = gm::Choices { dup_pct: 10, junk: 3, shuffle_pool: true, shuffle_attrs: true, wide_pct: 100, split_tables: true, pad_byte: 0 };
+/// a function of the description alone (the generator of the choices is seeded by the description's text): equal
+/// descriptions are stored as equal bytes, on either side
+fn stored_bytes(c: &ClsD) -> R<Vec<u8>> {
+	let seed = cls_to(c).to_string().bytes().fold(0xcbf29ce484222325u64, |h, b| (h ^ b as u64).wrapping_mul(0x100000001b3));
+	let g = g_class(c);
+	catch_unwind(AssertUnwindSafe(|| gm::assemble(&g, &STORED_CHOICES, &mut Rng::new(seed)))).map_err(|_| "class not encodable".to_owned())
+}
+
+/// `other` = the jar on the other side. The model identifies "the written bytes are equal" with "the descriptions are
+/// equal" (Model/MergeJar.lean); for a stored class that meets the same description in *parsed* form on the other side this
+/// holds only if the stored bytes are what the class writer produces, so that one case keeps the writer's bytes. Decided
+/// on the two descriptions of the request.
+fn jar_build(es_: &[EntD], other: &[EntD]) -> R<PJ> {
 	let mut entries = IndexMap::new();
 	for e in es_ {
 		let content = match &e.content {
@@ -284,8 +327,12 @@ fn jar_build(es_: &[EntD]) -> R<PJ> {
 			ContD::Class(vec, c) => {
 				let class = class_build(c)?;
 				JarEntryEnum::Class(if *vec {
-					let mut data = Vec::new();
-					es(duke::write_class(&mut data, &class))?;
+					let meets_parsed_twin = other.iter().any(|o| o.name == e.name && matches!(&o.content, ContD::Class(false, c2) if c2 == c));
+					let data = if meets_parsed_twin {
+						let mut data = Vec::new();
+						es(duke::write_class(&mut data, &class))?;
+						data
+					} else { stored_bytes(c)? };
 					ClassRepr::Vec { data }
 				} else { ClassRepr::Parsed { class } })
 			}
@@ -317,8 +364,8 @@ thread_local! { static PANIC_FILE: std::cell::RefCell<String> = const { std::cel
 /// Since 9bfd462 merge.rs has no reachable panic; one that happens anyway is reported with the site `merge.rs` (its
 /// location is in dukebox/src/merge.rs) or `other`, which the model never predicts
 fn run_merge(client: &[EntD], server: &[EntD]) -> R<MOut> {
-	let c = jar_build(client)?;
-	let s = jar_build(server)?;
+	let c = jar_build(client, server)?;
+	let s = jar_build(server, client)?;
 	let prev = std::panic::take_hook();
 	std::panic::set_hook(Box::new(|info| {
 		let f = info.location().map(|l| l.file().to_owned()).unwrap_or_default();
@@ -618,7 +665,7 @@ fn exec(op: &str, args: &[Sexp]) -> Ans {
 			// every entry against the table
 			for e in &r { if let Some(t) = entry_check(&c, &s, e) { return Ans::fail(&t); } }
 			// identical classes: the client's representation is passed through (byte-identical for stored bytes)
-			let cj = tr!(jar_build(&c));
+			let cj = tr!(jar_build(&c, &s));
 			for ce in &c {
 				if ce.name == MANIFEST || is_sig(&ce.name) { continue; }
 				let (ContD::Class(_, cc), Some(EntD { content: ContD::Class(_, cs), .. })) = (&ce.content, s.iter().find(|se| se.name == ce.name)) else { continue };
